@@ -7,6 +7,7 @@
 # Output: /verif/seeded/<Cxx>-<i>/{patch.diff,demo/,meta.json,checks.txt}
 set -u
 LANE="$1"; ID="$2"; I="$3"; shift 3
+ALLCHECKS=$([[ $# -eq 0 ]] && echo 1)
 CHECKS="${*:-C01 C02 C03 C04 C05 C06 C07 C08 C09 C10 C11 C12 C13 C14 C15 C16 C17 C18 C19 C20}"
 S=/root/scratch/lane$LANE
 SEED=${SEEDROOT:-/tmp/seed}/$ID
@@ -46,6 +47,7 @@ for c in $CHECKS; do
   if [[ $rc -ne 1 ]]; then rm -f $OUT/run-$c.log; else grep -m3 "^violation" $OUT/run-$c.log | cut -c1-600 > $OUT/first-$c.txt; rm -f $OUT/run-$c.log; fi
 done
 git -C $S/repo checkout -q -- .
+export CHECKS_RUN="$CHECKS" ALLCHECKS
 python3 - "$ID" "$(( I + ${OUTOFFSET:-0} ))" "$SUITE" "$DEMO_WITH" "$DEMO_WITHOUT" "$CAUGHT" <<'PY'
 import json,sys,os
 id_,i,suite,dw,dwo,caught=sys.argv[1:7]
@@ -58,7 +60,7 @@ if os.path.exists(p):
     open(out+"/change.md","w").write(desc)
 meta={"property":id_,"seed":int(i),"source":"independent sub-agent given only the property text and a private worktree",
  "repo_suite_with_change":suite,"demo_exit_with_change":dw,"demo_exit_without_change":dwo,
- "checks_run":"every check's quick tier via tools/scratch_env.sh against a scratch worktree with the patch applied",
+ "checks_run":("every check's quick tier" if _o.environ.get("ALLCHECKS") else "quick tiers of "+_o.environ.get("CHECKS_RUN","")+" (the checks anchored in a touched file or consuming a touched crate; all 20 were run in the first evaluation)")+" via tools/scratch_env.sh against a scratch worktree with the patch applied",
  "caught_by":caught.split(),"needs_to_manifest":"see change.md (trigger section)"}
 json.dump(meta,open(out+"/meta.json","w"),indent=1)
 print(f"{id_}-{i}: suite=[{suite}] demo with/without={dw}/{dwo} caught_by={caught}")
